@@ -1,6 +1,6 @@
 (* Properties_C02.v — the theorems that decide property C02 on the model, each stated in full and closed by
    `exact <lemma>`; the lemmas live in the Proofs_*.v files.  Nothing else belongs in this file. *)
-From Theo Require Import Base Regex Tokens Errors Lexer Scan MacroExtract Grammar LR MacroApply Parser VMModel VMSpec VMCheck GenModel Compile Gen_Lexer Gen_Consts CompileStatements Proofs_Front Proofs_Gen.
+From Theo Require Import Base Regex Tokens Errors Lexer Scan MacroExtract Grammar LR MacroApply Parser VMModel VMSpec VMCheck GenModel Compile Gen_Lexer Gen_Consts CompileStatements Proofs_Front Proofs_Gen LocErrStatements Proofs_LocErr.
 Local Open Scope Z_scope.
 
 
@@ -59,3 +59,24 @@ Theorem C02_apply_total :
     exists errs out, apply_macros input defs passes = Ok (errs, out) /\ eof_terminated out.
 Proof. exact C02_apply_total_proof. Qed.
 Print Assumptions C02_apply_total.
+
+Theorem C02_scan_positions :
+  forall rules files main toks errs, scan rules files main = Ok (toks, errs) ->
+    Forall (fun t => loc_ok files (tfile t) (tline t)) toks /\
+    Forall (fun e => loc_ok files (pe_file e) (pe_line e)) errs.
+Proof. exact C02_scan_positions_proof. Qed.
+Print Assumptions C02_scan_positions.
+
+Theorem C02_error_locations :
+  forall files main c e, compile files main = Ok c -> In e (cr_errors c) ->
+    loc_ok (seen_files files main) (ge_file e) (ge_line e).
+Proof. exact C02_error_locations_proof. Qed.
+Print Assumptions C02_error_locations.
+
+Theorem C02_seen_files :
+  standards_replace = true ->
+  forall files main f l, in_file (seen_files files main) f l ->
+    (f = standards_name /\ 1 <= l <= count_nl standard_macros + 1) \/
+    (f <> standards_name /\ in_file files f l).
+Proof. exact C02_seen_files_proof. Qed.
+Print Assumptions C02_seen_files.
